@@ -17,7 +17,7 @@ from ..cfg import explore, must_facts, canon_fact, holds
 from ..rules import call_sites, node_calls, require_after, event_facts
 from ..mutate import mutate, remove_stmts, replace_stmt, replace_expr, parse_stmt, parse_expr
 from ..model import AnalysisError
-from ..x_flow import resolve_local, unique_def, expanded_facts
+from ..x_flow import protected, resolve_local, unique_def, expanded_facts
 
 TECHNIQUE = "lock-discipline lint (guarded-by, wait-in-loop with folded wake predicate, notify-after-write) + ordering typestate on the CFG + who-may-call / thread-confinement ownership rules"
 EXPLANATION = (
@@ -714,7 +714,7 @@ def rule_dispatch(ck, N, run):
         member = "%s in %s" % (fdp, mapp)
         for s in subs:
             guarded = all(holds(hfacts[nd.id], member, True) for nd in h.cfg.nodes_for(s)) and bool(h.cfg.nodes_for(s))
-            ck.ob("C40.removed-fd", h, s, (q.protected_by(pm, s, "KeyError") is not None or guarded) and q.dotted(s.slice) == fdp,
+            ck.ob("C40.removed-fd", h, s, (protected(pm, s, "KeyError") is not None or guarded) and q.dotted(s.slice) == fdp,
                   "lookup of the fd tolerates a reader/writer removed between select and dispatch (KeyError handled, or guarded by `fd in map`)")
         cbcalls = [(n, c) for n, c in h.cfg.find(lambda x: isinstance(x, ast.Call) and q.dotted(x.func) in cbnames)]
         ck.floor("C40.dispatch", len(cbcalls), 1, "callback invocations in %s" % hname)
@@ -759,7 +759,7 @@ def rule_waker(ck, N):
     for fi, end, op in ((wake, w, "send"), (cons, r, "recv")):
         pm = q.parent_map(fi.node)
         for c in q.find_calls(fi.node, "%s.%s" % (end, op)):
-            ck.ob("C40.waker", fi, c, q.protected_by(pm, c, "BlockingIOError") is not None, "%s on the non-blocking waker tolerates BlockingIOError (pipe already full / already drained)" % op)
+            ck.ob("C40.waker", fi, c, protected(pm, c, "BlockingIOError") is not None, "%s on the non-blocking waker tolerates BlockingIOError (pipe already full / already drained)" % op)
     # closed-flag tested by the wake function
     closed = set()
     for n in q.walk_body(wake.node):
@@ -942,7 +942,7 @@ def rule_shutdown(ck, N):
     # the atexit send must tolerate a full pipe too
     pm = q.parent_map(at.node)
     for c in q.find_calls(at.node, "%s.%s.send" % (fors[0].target.id, N["waker_w"])):
-        ck.ob("C40.waker", at, c, q.protected_by(pm, c, "BlockingIOError") is not None, "send on the non-blocking waker tolerates BlockingIOError (pipe already full)")
+        ck.ob("C40.waker", at, c, protected(pm, c, "BlockingIOError") is not None, "send on the non-blocking waker tolerates BlockingIOError (pipe already full)")
     # the atexit hook iterates the registry every instance joins in __init__
     init = ck.func(F, CLS + ".__init__")
     reg = q.dotted(fors[0].iter)
